@@ -89,9 +89,29 @@ structure GInv (H : Mat) (sy : Vec) (st : GState) (rep d : Nat → Nat) : Prop w
   conn : ∀ i, st.sPar i ≠ -1 → Conn H st.rowDead st.colDead st.sPar st.qPar rep (rep i) i
   qrng : ∀ q, st.qPar q = -1 ∨ ∃ x : Nat, st.qPar q = (x : Int) ∧ st.sPar x ≠ -1
 
-/-- **`_q_parents[q] = merge_clusters(grown rows of q)` preserves the invariant** -/
-theorem GInv_fuse {H : Mat} {sy : Vec} {st : GState} {rep d : Nat → Nat} (I : GInv H sy st rep d)
-    (qi : Int) : ∃ rep' d', GInv H sy (fuseStep H st qi) rep' d' := by
+/-- the rows of column `q` whose entry in `_H_to_grow` has been zeroed
+    (`(H[:, q] - _H_to_grow[:, q]).nonzero()[0]`) -/
+def grownRows (H : Mat) (st : GState) (q : Nat) : List Nat :=
+  (List.range H.length).filter fun s => hb H s q && !live H st.rowDead st.colDead s q
+
+theorem mem_grownRows {H : Mat} {st : GState} {q s : Nat} :
+    s ∈ grownRows H st q ↔ grown H st.rowDead st.colDead s q = true := by
+  unfold grownRows
+  rw [mem_filter_range]
+  unfold grown
+  constructor
+  · exact fun h => h.2
+  · intro h
+    exact ⟨hb_lt (by simp only [Bool.and_eq_true] at h; exact h.1), h⟩
+
+/-- **`_q_parents[q] = merge_clusters(grown rows of q)` preserves the invariant**; the
+    specification of the merge is exported for the termination argument -/
+theorem fuse_spec {H : Mat} {sy : Vec} {st : GState} {rep d : Nat → Nat} (I : GInv H sy st rep d)
+    (qi : Int) : ∃ rep' d', GInv H sy (fuseStep H st qi) rep' d' ∧
+      MergeSpec H.length sy st.sPar rep st.forest (grownRows H st qi.toNat)
+        ((fuseStep H st qi).qPar qi.toNat) (fuseStep H st qi).sPar (fuseStep H st qi).forest rep' d' ∧
+      (fuseStep H st qi).rowDead = st.rowDead ∧ (fuseStep H st qi).colDead = st.colDead := by
+  unfold grownRows
   -- the rows of the column that have been grown
   have hssm : ∀ s, s ∈ ((List.range H.length).filter fun s =>
       hb H s qi.toNat && !live H st.rowDead st.colDead s qi.toNat) → s < H.length := by
@@ -154,7 +174,7 @@ theorem GInv_fuse {H : Mat} {sy : Vec} {st : GState} {rep d : Nat → Nat} (I : 
       have h1 := (I.conn sb hsbl).lift hlift
       rw [hsbr] at h1
       exact Conn.step h1 (hnew sb s hsb hs)
-    refine ⟨rep', d', ⟨M.uf, M.fi, by simp [I.nbad], ?_, ?_⟩⟩
+    refine ⟨rep', d', ⟨M.uf, M.fi, by simp [I.nbad], ?_, ?_⟩, by simpa using M, trivial, trivial⟩
     · intro i hi
       show Conn H st.rowDead st.colDead sp' (fun i => if i = qi.toNat then rt else st.qPar i) rep' (rep' i) i
       by_cases hold : st.sPar i = -1
@@ -200,7 +220,7 @@ theorem GInv_fuse {H : Mat} {sy : Vec} {st : GState} {rep d : Nat → Nat} (I : 
       obtain ⟨x, h1, h2, h3⟩ := e.qp
       exact ⟨e.gu, e.gv, M.live_mono u e.lu, M.live_mono v e.lv, M.coarse u v e.lu e.lv e.same,
         x, by simp [hq, h1], M.live_mono x h2, M.coarse x u h2 e.lu h3⟩
-    refine ⟨rep', d', ⟨M.uf, M.fi, by simp [I.nbad], ?_, ?_⟩⟩
+    refine ⟨rep', d', ⟨M.uf, M.fi, by simp [I.nbad], ?_, ?_⟩, by simpa using M, trivial, trivial⟩
     · intro i hi
       have hold : st.sPar i ≠ -1 := fun h => hi ((hfresh i).mpr h)
       show Conn H st.rowDead st.colDead sp' (fun i => if i = qi.toNat then rt else st.qPar i) rep' (rep' i) i
@@ -213,5 +233,10 @@ theorem GInv_fuse {H : Mat} {sy : Vec} {st : GState} {rep d : Nat → Nat} (I : 
         rcases I.qrng q with h | ⟨x, h1, h2⟩
         · exact Or.inl h
         · exact Or.inr ⟨x, h1, M.live_mono x h2⟩
+
+theorem GInv_fuse {H : Mat} {sy : Vec} {st : GState} {rep d : Nat → Nat} (I : GInv H sy st rep d)
+    (qi : Int) : ∃ rep' d', GInv H sy (fuseStep H st qi) rep' d' := by
+  obtain ⟨rep', d', h, _⟩ := fuse_spec I qi
+  exact ⟨rep', d', h⟩
 
 end Panqec.UF
